@@ -91,6 +91,9 @@ def runOpAlgebra (op : String) : Option (RdM String) :=
   | "bb.inside" => some do let a ← rdBox (α := α); let p ← rdV; return s!"{shB (a.pointInside p)} {shB (a.pointInsideExclusive p)}"
   | "bb.misc" => some do let a ← rdBox (α := α); return s!"{a.maxExtent} {shF a.surfaceArea}"
   | "bb.hit" => some do let a ← rdBox (α := α); let r ← rdRay; let inv ← rdV; return shB (a.intersect r inv)
+  | "bb.newhit" => some do
+      let a ← rdV (α := α); let b ← rdV; let r ← rdRay; let inv ← rdV
+      return shB ((BBox.new a b).intersect r inv)
   | _ => none
 
 
